@@ -28,7 +28,9 @@ pub enum HOp {
     Sleep { ms: u32 },
     /// announce; `seg`: byte offsets at which the request is cut into TCP segments;
     /// `hdr`: forwarded-header layout when the tracker runs behind a reverse proxy
-    Ann { t: u8, ev: u8, left: u64, want: Option<u64>, port: u16, pid: u8, style: u8, seg: Vec<u16>, hdr: u8 },
+    /// `via` (behind a reverse proxy only): the request comes from another client (host offset) multiplexed onto
+    /// this upstream connection
+    Ann { t: u8, ev: u8, left: u64, want: Option<u64>, port: u16, pid: u8, style: u8, seg: Vec<u16>, hdr: u8, #[serde(default)] via: u8 },
     Scr { ts: Vec<u8>, seg: Vec<u16>, hdr: u8 },
     /// kind 0: garbage line; 1: request larger than the request buffer; 2: announce with a 19-byte info hash;
     /// 3: unknown path; 4: missing port; 5: POST; 6: binary junk; 7: request without the forwarded header (proxy mode);
@@ -376,9 +378,13 @@ fn client_main(idx: usize, scn: Arc<Scn>, col: Arc<Mutex<Collected>>) {
             }
         }
         let fam = Fam::of(&canon_ip(addr.ip()));
+        let mut req_ip = addr.ip();
         let (text, hdr, segs, req): (String, u8, Vec<u16>, Option<Req>) = match op {
-            HOp::Ann { t, ev, left, want, port, pid, style, seg, hdr } => {
-                let key: Key = (canon_ip(addr.ip()), *port);
+            HOp::Ann { t, ev, left, want, port, pid, style, seg, hdr, via } => {
+                if scn.behind_proxy && *via > 0 {
+                    req_ip = src_ip(c.v6, if c.v6 { c.ac % 2 } else { 0 }, c.h + 40 * *via as u16);
+                }
+                let key: Key = (canon_ip(req_ip), *port);
                 let limit = limit_of(want.map(|w| w.min(i64::MAX as u64) as i64), scn.max_peers);
                 (enc_announce(*t, *ev, *left, *want, *port, *pid, *style, other_ip), *hdr, seg.clone(), Some(Req::Ann { t: *t, key, stopped: ev % 4 == 3, seeder: *left == 0, limit, pid: *pid }))
             }
@@ -429,7 +435,7 @@ fn client_main(idx: usize, scn: Arc<Scn>, col: Arc<Mutex<Collected>>) {
         };
         let mut full = text;
         if scn.behind_proxy && hdr != 255 {
-            let (h, _) = forwarded(hdr, addr.ip(), other_ip);
+            let (h, _) = forwarded(hdr, req_ip, other_ip);
             full.push_str(&h);
         }
         full.push_str("\r\n");
@@ -769,6 +775,7 @@ impl Harness for HttpSys {
                         style: r.below(64) as u8,
                         seg: seg(&mut r),
                         hdr: r.below(16) as u8,
+                        via: if behind_proxy && r.chance(400) { r.range(1, 2) as u8 } else { 0 },
                     },
                     2 => {
                         let n = *r.pick(&[1usize, 1, 2, 3, 5]);
@@ -804,13 +811,13 @@ impl Harness for HttpSys {
             let swarm = (max_peers + 4).min(720);
             let mut script = Vec::new();
             for p in 0..swarm {
-                script.push(HOp::Ann { t: 0, ev: 1, left: 1, want: Some(1), port: 1 + p as u16, pid: 1, style: 0, seg: vec![], hdr: 0 });
+                script.push(HOp::Ann { t: 0, ev: 1, left: 1, want: Some(1), port: 1 + p as u16, pid: 1, style: 0, seg: vec![], hdr: 0, via: 0 });
             }
-            script.push(HOp::Ann { t: 0, ev: 1, left: 1, want: None, port: 60000, pid: 2, style: 0, seg: vec![], hdr: 0 });
-            script.push(HOp::Ann { t: 0, ev: 1, left: 1, want: Some(100000), port: 60002, pid: 2, style: 0, seg: vec![], hdr: 0 });
+            script.push(HOp::Ann { t: 0, ev: 1, left: 1, want: None, port: 60000, pid: 2, style: 0, seg: vec![], hdr: 0, via: 0 });
+            script.push(HOp::Ann { t: 0, ev: 1, left: 1, want: Some(100000), port: 60002, pid: 2, style: 0, seg: vec![], hdr: 0, via: 0 });
             let n_hashes = *r.pick(&[28usize, 57, 58, 60, 64]);
             script.push(HOp::Scr { ts: (0..n_hashes).map(|i| i as u8).collect(), seg: vec![], hdr: 0 });
-            script.push(HOp::Ann { t: 1, ev: 1, left: 1, want: None, port: 60001, pid: 2, style: 0, seg: vec![], hdr: 0 });
+            script.push(HOp::Ann { t: 1, ev: 1, left: 1, want: None, port: 60001, pid: 2, style: 0, seg: vec![], hdr: 0, via: 0 });
             conns = vec![Conn { v6, ac: 0, h: 10, sport: 2000, pick: 0, write_caps: vec![], slow_read: 0, script }];
         }
         let mut faults = Vec::new();
@@ -841,9 +848,9 @@ impl Harness for HttpSys {
             for k in 0..r.range(5, 8) {
                 script.push(match if kind == 3 { k % 3 } else { kind } {
                     0 => HOp::Scr { ts: vec![t], seg: vec![], hdr: 0 },
-                    1 => HOp::Ann { t, ev: 0, left: 1, want: Some(2), port: 1000, pid: 5, style: 0, seg: vec![], hdr: 0 },
+                    1 => HOp::Ann { t, ev: 0, left: 1, want: Some(2), port: 1000, pid: 5, style: 0, seg: vec![], hdr: 0, via: 0 },
                     // a torrent the access list may forbid
-                    _ => HOp::Ann { t: r.below(6) as u8, ev: 0, left: 1, want: Some(2), port: 1000, pid: 5, style: 0, seg: vec![], hdr: 0 },
+                    _ => HOp::Ann { t: r.below(6) as u8, ev: 0, left: 1, want: Some(2), port: 1000, pid: 5, style: 0, seg: vec![], hdr: 0, via: 0 },
                 });
                 script.push(HOp::Sleep { ms: *r.pick(&[1000u32, 2500, 3000]) });
             }
